@@ -23,6 +23,7 @@ for d in sys.argv[2:]:
                 res = json.loads(l)
             except Exception:
                 pass
+    res.pop("_base", None)
     dst = os.path.join("/verif/seeded/harmless", name)
     os.makedirs(dst, exist_ok=True)
     shutil.copy(os.path.join(d, "patch.diff"), dst)
